@@ -133,6 +133,14 @@ def scenarios(tier):
     S.append({'id': 'seen-before-registered-elsewhere-prefix', 'init': True, 'setup': [('register_function', 'gfw', wait_handler('R'))],
               'threads': [[('execute', '+++ 1'), ('execute', 'gfw ( 1 )'), ('execute', '+++ 1')], [('register_prefix', '+++', T('PPP')), ('set_flag', 'R')]],
               'probe': [('execute', '+++ 1')]})
+    # an operator looked up while an operand that looks up the same registry is being evaluated, racing with a registration
+    # in that registry (reader-writer locks that prefer writers deadlock on the nested read)
+    S.append({'id': 'nested-postfix-vs-register-postfix', 'init': True, 'setup': [],
+              'threads': [[('execute', '( 1 ++ ) ++')], [('register_postfix', '+++', T('PPP'))]], 'probe': [('execute', '1 +++')]})
+    S.append({'id': 'nested-prefix-vs-register-prefix', 'init': True, 'setup': [],
+              'threads': [[('execute', '- - 1')], [('register_prefix', '+++', T('PPP'))]], 'probe': [('execute', '+++ 1')]})
+    S.append({'id': 'nested-call-vs-register-function', 'init': True, 'setup': [],
+              'threads': [[('execute', 'max ( min ( 1 , 2 ) , 3 )')], [('register_function', 'f', T('F'))]], 'probe': [('execute', 'f ( )')]})
     if tier == 'thorough':
         S.append({'id': 'three-first-uses', 'init': False, 'setup': [], 'threads': [[('register_function', 'mul', T('MY-mul'))], [('execute', '1 + 2')], [('execute', 'max ( 1 , 2 )')]],
                   'probe': [('execute', 'mul ( 2 , 3 )')]})
@@ -354,8 +362,12 @@ def run(ctx):
         steps = native_scenario(sc, extra_threads=4 if not sc['init'] else 0)
         confirmed = False
         last = None
-        trials = 40
+        trials = 2400
+        ti = [j for j, st in enumerate(steps) if st['op'] == 'threads'][0]
         for i in range(trials):
+            # sweep the relative start of the threads: 0 .. 30 us in 50 ns steps, either thread first (dev and release alternate)
+            off = (i // 4 % 600) * 50
+            steps[ti]['stagger_ns'] = [off, 0] if i % 4 < 2 else [0, off]
             obs = ctx.native(steps, 'dev' if i % 2 == 0 else 'release', timeout=30)
             validated += 1
             kind, js = native_result(sc, obs)
